@@ -80,7 +80,7 @@ AddClauses(M, s, k, a, fwd, pure, r, s2) ==
    C02_accept |-> ante.C02_accept => r.ok,
    C07_ext    |-> ante.C07_ext => Ext(A, P, FD, s2.insw),
    C12_reject |-> ante.C12_reject => ~Ext(A, P, FD, Append(s.insw, a)),
-   C18_free   |-> ante.C18_free => (r.ok /\ s2.ord = s2.ins),
+   C18_free   |-> ante.C18_free => (r.ok /\ s2.ins = Append(s.ins, k) /\ s2.ord = s2.ins),   \* any child, kept in insertion order
    C06_add    |-> ante.C06_add => /\ s2.ins = Append(s.ins, k) /\ s2.insw = Append(s.insw, a)
                                   /\ IsPerm(s2.ord, s2.ins)
                                   /\ \A j \in DOMAIN s2.ord : s2.ordw[j] = s2.insw[IndexOf(s2.ins, s2.ord[j])]
@@ -133,10 +133,12 @@ ToStringClauses(M, s, ic, pure, r, s2, outw) ==
         C06_out    |-> TRUE,
         C16_pure   |-> TRUE,
         C18_free   |-> ~s.chk,
+        C18_order  |-> ~s.chk /\ r.ok,
         C10_frame  |-> ~r.ok,
         C19_class  |-> ~r.ok,
         C19_quiet  |-> TRUE ]
   IN [ante |-> ante, holds |-> [
+   C18_order  |-> ante.C18_order => outw = s.insw,        \* an unchecked element serialises its children in insertion order
    C01_word   |-> ante.C01_word => Accepts(A, s2.ordw),
    C01_text   |-> ante.C01_text => outw = s2.ordw,
    C02_final  |-> ante.C02_final => (r.ok /\ s2.ordw = s.insw),
